@@ -181,8 +181,7 @@ def main_for(scn, prop, argv):
         print("VIOLATION property=%s replay=%s" % (prop, path))
         print("  " + vv[0]["msg"])
         reported += 1
-        if exit_code == 0:
-            exit_code = 1
+        exit_code = 1       # a confirmed, replayable violation outranks a class that failed the replay gate
 
     wall = time.monotonic() - t0
     if not args.no_evidence:
